@@ -171,6 +171,7 @@ func (c *handCfg) options() *pokerface.GameOptions {
 }
 
 type hand struct {
+	hops    int // save / restore points so far
 	o       *Out
 	cfg     *handCfg
 	g       pokerface.Game
@@ -182,6 +183,11 @@ type hand struct {
 	dead    bool                 // a panic ended the history
 	closed  bool
 	opts    *pokerface.GameOptions // the options value the game was built from
+	// a checkpoint (`hop save`) the hand can be rolled back to (`hop rollback`: LoadState of the OLDER state into the live game object)
+	saved       *pokerface.GameState
+	savedTwin   *pokerface.GameState
+	savedMon    *engineMon
+	savedClosed bool
 }
 
 func cloneJSON(gs *pokerface.GameState) *pokerface.GameState {
@@ -353,6 +359,8 @@ func parseOpLine(line string) opSpec {
 }
 
 func applyOp(g pokerface.Game, op opSpec) error {
+	wdArm(op.line())
+	defer wdDisarm()
 	switch op.kind {
 	case "ready":
 		return g.ReadyForAll()
@@ -599,8 +607,15 @@ func (h *hand) query(k int) {
 		g := h.g
 		switch k % 5 {
 		case 4:
-			// (Resume() is NOT a query: called directly at RoundStarted it re-enters the event chain and passes the turn on without an
-			// action — exported plumbing like EmitEvent / SetCurrentPlayer, outside the alphabet, O3)
+			// Resume() re-enters the event chain from the recorded event: exported plumbing (the tail of every action; called directly at
+			// RoundStarted it passes the turn on, at RoundClosed it recomputes, O3) and outside the alphabet — except on a CLOSED hand,
+			// which "from then on accepts nothing": there it must find nothing to do and change nothing.
+			if gs.Status.CurrentEvent == "GameClosed" {
+				if err := g.Resume(); err != nil {
+					h.o.Violate("C06", "closed_final", "Resume() on a closed hand returned "+err.Error())
+				}
+				h.o.Count("engine.resume_on_closed_hand")
+			}
 			for _, p := range g.GetPlayers() {
 				_ = p.CheckAction("call")
 			}
@@ -697,10 +712,72 @@ func (h *hand) hop(kind string) {
 	if kind != "" {
 		line = "hop " + kind
 	}
+	if kind == "save" {
+		// a checkpoint: the JSON of the state now, and the ghosts of the monitors as they are now
+		h.saved = cloneJSON(h.g.GetState())
+		if h.twin != nil {
+			h.savedTwin = copyState(h.twin)
+		} else {
+			h.savedTwin = nil
+		}
+		mc := *h.mon
+		mc.turnSince = append([]bool{}, h.mon.turnSince...)
+		mc.seen = map[[20]byte]int{}
+		for k, v := range h.mon.seen {
+			mc.seen[k] = v
+		}
+		h.savedMon = &mc
+		h.savedClosed = h.closed
+		h.o.Emit(line, "ok")
+		h.o.Count("engine.hop_save")
+		return
+	}
+	if kind == "rollback" {
+		if h.saved == nil {
+			return
+		}
+		// the game object that has moved on is given the older state back (a host undoing a hand to a checkpoint); from here on it must
+		// behave like a game that never went further: every cache keyed to the abandoned line of play has to be dropped
+		var lerr error
+		_, pan := safely(func() error { lerr = h.g.LoadState(cloneJSON(h.saved)); return nil })
+		if pan || lerr != nil {
+			h.dead = true
+			h.o.Emit(line, "st err=panic")
+			h.o.Violate("C07", "resume_accepts", "LoadState of an earlier state of the same hand failed")
+			return
+		}
+		if h.savedTwin != nil {
+			h.twin = copyState(h.savedTwin)
+			h.rawTwin = h.twin
+		}
+		mc := *h.savedMon
+		mc.turnSince = append([]bool{}, h.savedMon.turnSince...)
+		mc.seen = map[[20]byte]int{}
+		for k, v := range h.savedMon.seen {
+			mc.seen[k] = v
+		}
+		h.mon = &mc
+		h.closed = h.savedClosed
+		h.o.Emit(line, gameStr("st", h.g.GetState(), "none"))
+		h.o.Count("engine.hop_rollback")
+		return
+	}
 	obs := "ok"
 	if kind == "json" || kind == "load" {
 		_, pan := safely(func() error {
-			c := cloneJSON(h.g.GetState())
+			var c *pokerface.GameState
+			h.hops++
+			if h.hops%2 == 0 {
+				// the engine's own snapshot call (what a host that stores hands would use), every second time
+				if b, err := h.g.GetStateJSON(); err == nil {
+					var s pokerface.GameState
+					if json.Unmarshal(b, &s) == nil {
+						c = &s
+					}
+				}
+			} else {
+				c = cloneJSON(h.g.GetState())
+			}
 			if c == nil {
 				obs = "err"
 				return nil
